@@ -13,6 +13,8 @@ Line protocol for the WAMP message model (C03, C08).  Values travel as ONE token
   wamp.lengths <Class>         → admissible len(wmsg), comma separated
   wamp.fields <Class>          → field names, comma separated
   wamp.code <Class>            → type code
+  wamp.rolefeatures            → the regenerated role feature table  role:f1,f2;role:…
+  wamp.rolesaccept hello|welcome <wval> → 1/0: does the Spec (rolesAccept) accept this `roles` value
   wamp.typemap                 → the regenerated MESSAGE_TYPE_MAP as code:Class,…
   wamp.binary                  → the regenerated BINARY flags as name:0|1,…
   wamp.speccode <Class>        → the WAMP protocol's type code of the class (spec table, not regenerated)
@@ -85,6 +87,14 @@ def handle : List String → Option String
       pure (toString e.2)
   | ["wamp.binary"] =>
       pure (",".intercalate (Generated.WampCodes.serializerBinary.map (fun e => s!"{str e.1}:{boolStr e.2}")))
+  | ["wamp.rolefeatures"] =>
+      pure (";".intercalate (Generated.WampCodes.roleFeatures.map (fun rf => str rf.1 ++ ":" ++ ",".intercalate (rf.2.map str))))
+  | ["wamp.rolesaccept", which, t] => do
+      -- the Spec's verdict on a raw `roles` value: which = hello | welcome
+      let v ← Codec.decode t
+      let allowed ← (if which == "hello" then some Generated.WampCodes.helloRoles
+                     else if which == "welcome" then some Generated.WampCodes.welcomeRoles else none)
+      pure (boolStr (rolesAccept allowed Generated.WampCodes.roleFeatures v))
   | ["wamp.typemap"] =>
       pure (",".intercalate (Generated.WampCodes.typeMap.map (fun e => s!"{e.1}:{str e.2}")))
   | ["wamp.code", c] => do
